@@ -717,6 +717,7 @@ Error Message: {}
                 # If there is no valid context, we reject the authentication
                 result = AUTH_FAILED
                 self._send_auth_result(username, method, result)
+                return
             try:
                 sshgss.ssh_check_mic(
                     mic_token, self.transport.session_id, self.auth_username
